@@ -39,7 +39,7 @@ def main():
             # test_nnsp_compute_nnps_distance_1 is randomly flaky on the unchanged code (unseeded 0/0)
             rc, out = sh("/venv/bin/python -m pytest -q -p no:cacheprovider --no-cov -q "
                          "--deselect tests/menelaus/utils/test_utils.py::test_find_root_dir "
-                         "--deselect tests/menelaus/partitioners/test_nn_space_partitioner.py::test_nnsp_compute_nnps_distance_1 2>&1 | tail -3",
+                         "--deselect tests/menelaus/partitioners/test_nn_space_partitioner.py::test_nnsp_compute_nnps_distance_1 2>&1 | tail -15",
                          cwd=wt, timeout=1800)
             lines = [l for l in out.strip().splitlines() if " passed" in l or " failed" in l or " error" in l]
             res["suite"] = lines[-1] if lines else (out.strip().splitlines()[-1] if out.strip() else "")
